@@ -35,10 +35,13 @@ Definition cbop_of_code (c a b e : Z) : cbop :=
   else if c =? 3 then CbPartSetQuality a else if c =? 4 then CbCreateWO a b e else if c =? 5 then CbCreateWOIfFailure a b
   else CbLog a.
 
+Definition nz (l : list Z) : list Z := filter (fun z => negb (z =? 0)) l.
+
 Definition uop_of_code (c a b e : Z) : uop :=
   if c =? 0 then UShutdown a else if c =? 1 then URestore a else if c =? 2 then UFailAt a b
   else if c =? 3 then UBlock a (negb (b =? 0)) else if c =? 4 then UAdjust a b else if c =? 5 then UAddRes a b
   else if c =? 7 then UOffset a b
+  else if c =? 8 then URewire a (nz [b; e])
   else UCreateWO a b e.
 
 Definition capz (z : Z) : inf := if z <? 0 then None else Some z.
@@ -53,7 +56,6 @@ Definition connect (w : fw) (d : Z) (ups : list Z) : fw :=
 Definition new_dev (w : fw) (x : dev) : fw * Z :=
   let id := f_next_id w + 1 in (w <| f_next_id := id |> <| f_devs ::= fun l => l ++ [(id, x)] |>, id).
 
-Definition nz (l : list Z) : list Z := filter (fun z => negb (z =? 0)) l.
 
 Fixpoint add_uop (i : nat) (o : uop) (s : list (list uop)) : list (list uop) :=
   match i, s with
